@@ -42,6 +42,9 @@ def enumerate_states(tier, seed):
         if tier == "thorough":
             for s, o, f, m in itertools.product(range(ns), range(n_ori), range(n_off), (0, 1)):
                 states.append({"t": t, "s": s, "o": o, "f": f, "m": m})
+            # dense family: 672 further orientations (cube rotations composed with tiny .. nearly-quarter turns) x 146 directions
+            for s, o, f in itertools.product(range(ns), range(n_ori, len(sc.ALL_ROTS)), (0, 2)):
+                states.append({"t": t, "s": s, "o": o, "f": f, "m": 0, "dense": 1})
         else:
             # all orientations x all sizes (complete), offsets and margin as deviation <= 1 plus seed slice
             seen = set()
@@ -54,7 +57,8 @@ def enumerate_states(tier, seed):
                 seen.add((s, o, k, (seed // n_off) % 2))
             for s, o, f, m in sorted(seen):
                 states.append({"t": t, "s": s, "o": o, "f": f, "m": m})
-    meta["bound_completed"] = ("thorough: full product type x size x 28 orientations x 4 offsets x margin x 30 directions x 3 norms"
+    meta["bound_completed"] = ("thorough: full product type x size x 32 orientations x 4 offsets x margin x 30 directions x 3 norms + dense family "
+                               "type x size x 672 orientations x 2 offsets x 146 directions x 3 norms"
                                if tier == "thorough" else
                                "quick: type x size x all 28 orientations complete; offsets/margin: all pairs of deviations "
                                "+ seed-selected full slice; each with 30 directions x 3 norms; mesh cache BFS to closure")
@@ -80,6 +84,7 @@ def run_state(desc):
     viol, nontrivial = [], []
     hist = {"type": {t: 0}}
     n_eval = 0
+    nontrivial_n = 0
     cls = "%s%s" % (t, "+margin" if m else "")
 
     def check_point(p, d, entry, extra):
@@ -97,7 +102,8 @@ def run_state(desc):
             if gap > tol * float(np.linalg.norm(d)):
                 viol.append(_viol("not_extreme", entry, cls, dict(extra, p=p, d=d, gap=gap, tol=tol)))
 
-    for di, d0 in enumerate(sc.DIRS):
+    dense = bool(desc.get("dense"))
+    for di, d0 in enumerate(sc.DENSE_DIRS if dense else sc.DIRS):
         for nrm in NORMS:
             d = np.ascontiguousarray(d0 * nrm)
             try:
@@ -108,9 +114,12 @@ def run_state(desc):
             check_point(p, d, "support_function", {"dir": di, "norm": nrm})
             hist["type"][t] += 1
         # non-trivial: a zero component in the local frame (sign boundary) or tie
-        ld = sc.ROTS[o].T @ d0
+        ld = sc.ALL_ROTS[o].T @ d0
         if np.any(np.abs(ld) < 1e-12) or abs(abs(ld[2]) - 1) < 1e-12:
-            nontrivial.append([t, s, o, f, m, di])
+            if dense:
+                nontrivial_n += 1
+            else:
+                nontrivial.append([t, s, o, f, m, di])
     try:
         check_point(col.first_vertex(), None, "first_vertex", {})
         check_point(col.center(), None, "center", {})
@@ -119,7 +128,7 @@ def run_state(desc):
 
     n_trans = n_eval
     # ---------------- history part for meshes: BFS over the cached start vertex
-    if t == "mesh" and m == 0:
+    if t == "mesh" and m == 0 and not dense:
         sf = col._support_function
         nv = len(col.vertices)
         dirs = [np.ascontiguousarray(d) for d in sc.DIRS]
@@ -170,6 +179,6 @@ def run_state(desc):
                     viol.append(_viol("history_dependent", "support_function", cls, {"sequence": seq, "at": di}))
                     break
     return {"viol": viol, "n_eval": n_eval, "n_trans": n_trans, "traces": n_eval, "nontrivial": nontrivial,
-            "hist": hist,
+            "nontrivial_n": nontrivial_n, "hist": hist,
             "sample": {"desc": desc, "direction": sc.DIRS[5], "support_point": col.support_function(np.ascontiguousarray(sc.DIRS[5])),
                        "ref_support_value": ref.h(sc.DIRS[5])} if (o == 3 and f == 0) else None}
